@@ -395,6 +395,7 @@ def run(chk, repo, tier):
 
     run_m9(chk, repo)
     run_m10(chk, repo)
+    run_m11(chk, repo)
 
     # ---- M4
     n4 = 0
@@ -645,3 +646,39 @@ def run_m10(chk, repo):
                                       'the model uses a symbol that no earlier statement defines')
     if n == 0:
         raise AnalysisError('M10: the "defined before use" test of _canonicalize_statements was not recognised')
+
+
+def run_m11(chk, repo):
+    """M11: a class that takes its equality from collections.abc.Mapping / Set (order of the entries irrelevant) must not hash
+    the entries in iteration order; and a class whose __hash__ includes an attribute that holds such a mapping is consistent
+    only if the mapping is"""
+    M11 = chk.rule('M11', 'order-insensitive containers (Mapping / Set subclasses without their own __eq__) hash their entries '
+                          'order-insensitively (frozenset / sorted), not as tuple(items())', floor=1)
+    n = 0
+    for c in repo.all_classes():
+        ext = {b.split('[')[0].split('.')[-1] for b in repo.ext_bases(c)} | {
+            unparse(b.value if isinstance(b, ast.Subscript) else b).split('.')[-1] for b in c.base_exprs}
+        if not (ext & {'Mapping', 'MutableMapping', 'Set', 'AbstractSet'}):
+            continue
+        if dict.__contains__(c.methods, '__eq__') or not dict.__contains__(c.methods, '__hash__'):
+            continue
+        h = c.methods['__hash__']
+        n += 1
+        ordered = [x for x in ast.walk(h.node) if isinstance(x, ast.Call) and isinstance(x.func, ast.Name)
+                   and x.func.id in ('tuple', 'list') and x.args]
+        unordered = [x for x in ast.walk(h.node) if isinstance(x, ast.Call) and isinstance(x.func, ast.Name)
+                     and x.func.id in ('frozenset', 'sorted', 'set')]
+        bad = [x for x in ordered if not any(isinstance(y, ast.Call) and isinstance(y.func, ast.Name)
+                                             and y.func.id in ('sorted', 'frozenset') for y in ast.walk(x.args[0]))]
+        ok = bool(unordered) and not bad
+        chk.instance(M11, f'{c.name}.__hash__: order-insensitive {ok}')
+        if not ok:
+            node = (bad or [h.node])[0]
+            chk.violation(M11, c.module.rel, h.qualname, unparse(node)[:80] if bad else '__hash__',
+                          f'{c.name} compares like a {sorted(ext & {"Mapping", "MutableMapping", "Set", "AbstractSet"})[0]} (entry '
+                          f'order irrelevant) but hashes its entries in iteration order: equal objects hash differently',
+                          line=node.lineno,
+                          witness='Model.replace(dependent_variables={Y: 1, CL: 2}) and ({CL: 2, Y: 1}): the models are equal, '
+                                  'their hashes differ, a dict keyed by one does not find the other')
+    if n == 0:
+        raise AnalysisError('M11: no Mapping / Set subclass with its own __hash__ found (frozenmapping expected)')
